@@ -357,6 +357,8 @@ def r_cursor(F, engine, cls, cursor, limit_term, nowrap_ok=lambda fn, nid: False
     inv = norm_cmp("<=", cur, limit_term)
     out = []
     nstores = 0
+    access = {m["key"]: m.get("access") for m in rec["methods"]}
+    ctx_eng = None
     for fn in sorted(F.functions.values(), key=lambda f: f.key):
         if fn.cls != cls:
             continue
@@ -380,48 +382,73 @@ def r_cursor(F, engine, cls, cursor, limit_term, nowrap_ok=lambda fn, nid: False
         stores = cursor_stores(fn, cursor)
         if not stores:
             continue
-        engine.analyze(fn, frozenset([inv]))
+        private = access.get(fn.key) == "private" and not fn.d.get("ctor")
+        if private:
+            # a private helper cannot be called from outside, and may run while its caller has the object mid-update: its
+            # stores are judged in the contexts the class's other operations call it in
+            if ctx_eng is None:
+                ctx_eng = type(engine)(F, engine.S)
+                for pf in sorted(F.functions.values(), key=lambda f: f.key):
+                    if pf.cls == cls and pf.cfg and not pf.d.get("ctor") and not pf.d.get("implicit") and access.get(pf.key) != "private":
+                        ctx_eng.analyze(pf, frozenset([inv]))
+            eng = ctx_eng
+        else:
+            engine.analyze(fn, frozenset([inv]))
+            eng = engine
         for nd in stores:
             nstores += 1
-            site = final_site_facts(engine, fn, nd["id"])
+            site = final_site_facts(eng, fn, nd["id"])
             if site is None:
                 continue
-            ks = fn.kids(nd["id"])
-            op = nd.get("op")
-            inst = "%s#%s%s" % (fn.qn, cursor, op)
-            okd = None
-            if op == "=":
-                v = fn.term(ks[1])
-                if prove_le(site, v, limit_term):
-                    okd = "%s <= %s holds at the store" % (fmt_term(v), fmt_term(limit_term))
-                req = "%s <= %s before `%s = %s`" % (fmt_term(v), fmt_term(limit_term), cursor, fmt_term(v))
-            elif op == "+=":
-                v = fn.term(ks[1])
-                req = "%s <= %s - %s before `%s += %s`" % (fmt_term(v), fmt_term(limit_term), cursor, cursor, fmt_term(v))
-                if prove_le(site, v, ("op", "-", limit_term, cur)):
-                    okd = "subtraction form: %s <= %s - %s" % (fmt_term(v), fmt_term(limit_term), cursor)
-                elif (prove_le(site, ("op", "+", cur, v), limit_term) or prove_le(site, ("op", "+", v, cur), limit_term)):
-                    # the sum form is only meaningful if the guard's own sum cannot wrap
-                    if nowrap_ok(fn, nd["id"]):
-                        okd = "sum form with wrap-free guard"
-                    else:
-                        okd = None
-                        req += " (the guard %s + %s <= %s holds only modulo 2^64)" % (cursor, fmt_term(v), fmt_term(limit_term))
-            elif op == "-=":
-                v = fn.term(ks[1])
-                req = "%s <= %s before `%s -= %s`" % (fmt_term(v), cursor, cursor, fmt_term(v))
-                if prove_le(site, v, cur):
-                    okd = "%s <= %s holds at the store" % (fmt_term(v), cursor)
-            elif op == "++":
-                req = "%s < %s before increment" % (cursor, fmt_term(limit_term))
-                if prove_le(site, cur, limit_term, strict=True):
-                    okd = "strict bound holds"
-            elif op == "--":
-                req = "0 < %s before decrement" % cursor
-                if prove_le(site, ("const", 0), cur, strict=True):
-                    okd = "strict bound holds"
+
+            def judge(site):
+                ks = fn.kids(nd["id"])
+                op = nd.get("op")
+                inst = "%s#%s%s" % (fn.qn, cursor, op)
+                okd = None
+                if op == "=":
+                    v = fn.term(ks[1])
+                    if prove_le(site, v, limit_term):
+                        okd = "%s <= %s holds at the store" % (fmt_term(v), fmt_term(limit_term))
+                    req = "%s <= %s before `%s = %s`" % (fmt_term(v), fmt_term(limit_term), cursor, fmt_term(v))
+                elif op == "+=":
+                    v = fn.term(ks[1])
+                    req = "%s <= %s - %s before `%s += %s`" % (fmt_term(v), fmt_term(limit_term), cursor, cursor, fmt_term(v))
+                    if prove_le(site, v, ("op", "-", limit_term, cur)):
+                        okd = "subtraction form: %s <= %s - %s" % (fmt_term(v), fmt_term(limit_term), cursor)
+                    elif (prove_le(site, ("op", "+", cur, v), limit_term) or prove_le(site, ("op", "+", v, cur), limit_term)):
+                        # the sum form is only meaningful if the guard's own sum cannot wrap
+                        if nowrap_ok(fn, nd["id"]):
+                            okd = "sum form with wrap-free guard"
+                        else:
+                            okd = None
+                            req += " (the guard %s + %s <= %s holds only modulo 2^64)" % (cursor, fmt_term(v), fmt_term(limit_term))
+                elif op == "-=":
+                    v = fn.term(ks[1])
+                    req = "%s <= %s before `%s -= %s`" % (fmt_term(v), cursor, cursor, fmt_term(v))
+                    if prove_le(site, v, cur):
+                        okd = "%s <= %s holds at the store" % (fmt_term(v), cursor)
+                elif op == "++":
+                    req = "%s < %s before increment" % (cursor, fmt_term(limit_term))
+                    if prove_le(site, cur, limit_term, strict=True):
+                        okd = "strict bound holds"
+                elif op == "--":
+                    req = "0 < %s before decrement" % cursor
+                    if prove_le(site, ("const", 0), cur, strict=True):
+                        okd = "strict bound holds"
+                else:
+                    req = "recognised invariant-preserving store form"
+                return okd, req, inst
+            if private:
+                # each calling context on its own (what bounds the advance differs from caller to caller)
+                verdicts = [judge(set(o)) for o in eng.site.get((fn.key, nd["id"]), [])]
+                okd, req, inst = verdicts[0]
+                for v in verdicts:
+                    if not v[0]:
+                        okd, req, inst = v
+                        break
             else:
-                req = "recognised invariant-preserving store form"
+                okd, req, inst = judge(site)
             if okd:
                 out.append(ok("R-CURSOR", inst, fn.loc(nd["id"]), fn.qn, req, okd))
             else:
@@ -456,15 +483,29 @@ def r_count(F, engine, fn):
     R = fn.term(ret["value"])
     Rx = expand(R, defs)
     deliveries = []
+    # the function's own statements, and those of the helpers it runs on the same object (`CopyAndAdvance(buffer, n)`), read
+    # in this function's frame: the helper's parameters stand for the arguments it is handed
+    from .flow import substitute
+    bodies = [(fn, None, None)]
     for nd in fn.nodes:
-        if nd["k"] in CALLS:
-            nm = nd.get("fname")
-            if nm == "memcpy" and len(nd.get("args", [])) == 3:
-                deliveries.append(("memcpy", nd, fn.term(nd["args"][2])))
-            elif nm == "ReadPartial":
-                deliveries.append(("delegate", nd, fn.term(nd["id"])))
-            elif nm == "read" and (nd.get("mrec") or "").startswith("std::basic_istream"):
-                deliveries.append(("istream", nd, fn.term(nd["obj"])))
+        if nd["k"] == "CXXMemberCallExpr" and "obj" in nd and fn.term(nd["obj"]) == ("this",) and nd.get("fname") != "ReadPartial":
+            cals = [c for c in engine.F.callees(nd) if c.cfg and c.cls == fn.cls and c.key != fn.key]
+            if len(cals) == 1 and len(cals[0].params) == len(nd.get("args", [])):
+                sub = {("var", p["n"], p["d"]): fn.term(a) for p, a in zip(cals[0].params, nd["args"])}
+                bodies.append((cals[0], sub, nd))
+
+    def inframe(b, sub, t):
+        return substitute(t, sub) if sub else t
+    for b, sub, at in bodies:
+        for nd in b.nodes:
+            if nd["k"] in CALLS:
+                nm = nd.get("fname")
+                if nm == "memcpy" and len(nd.get("args", [])) == 3:
+                    deliveries.append(("memcpy", at or nd, inframe(b, sub, b.term(nd["args"][2]))))
+                elif nm == "ReadPartial":
+                    deliveries.append(("delegate", at or nd, inframe(b, sub, b.term(nd["id"]))))
+                elif nm == "read" and (nd.get("mrec") or "").startswith("std::basic_istream") and b is fn:
+                    deliveries.append(("istream", nd, fn.term(nd["obj"])))
     if not deliveries:
         # the read may sit in a helper on the same object (`ReadAndReset(buffer, size)`): what matters is which stream it
         # reads, because the count returned must be that stream's gcount()
@@ -475,6 +516,15 @@ def r_count(F, engine, fn):
                         if x["k"] == "CXXMemberCallExpr" and x.get("fname") == "read" and (x.get("mrec") or "").startswith("std::basic_istream") \
                                 and cal.term(x["obj"])[0] == "mem" and cal.term(x["obj"])[1] == ("this",):
                             deliveries.append(("istream", nd, cal.term(x["obj"])))
+            elif nd["k"] in CALLS and nd.get("args"):
+                # ... or in a helper that is handed the stream itself by reference
+                for cal in engine.F.callees(nd):
+                    for x in cal.nodes:
+                        if x["k"] == "CXXMemberCallExpr" and x.get("fname") == "read" and (x.get("mrec") or "").startswith("std::basic_istream"):
+                            ot = cal.term(x["obj"])
+                            ix = [i for i, p in enumerate(cal.params) if ("var", p["n"], p["d"]) == ot and p.get("ref") and i < len(nd["args"])]
+                            if ix:
+                                deliveries.append(("istream", nd, fn.term(nd["args"][ix[0]])))
     if not deliveries:
         raise AnalysisBroken("R-COUNT: no delivery primitive recognised in %s" % fn.qn)
     inst = fn.qn
@@ -503,20 +553,22 @@ def r_count(F, engine, fn):
                 out.append(bad("R-COUNT", inst + "#gcount", fn.loc(nd["id"]), fn.qn,
                                "returned count is gcount() of the stream that was read", "returned %s" % fmt_term(R)))
     # cursor advance: every store to an integer this-member adds exactly the returned count
-    for nd in fn.nodes:
-        if is_store(nd):
-            ks = fn.kids(nd["id"])
-            lt = fn.term(ks[0])
-            if lt[0] == "mem" and lt[1] == ("this",) and fn.n(ks[0]).get("iw"):
-                op = nd.get("op")
-                adv = fn.term(ks[1]) if len(ks) > 1 else None
-                if op == "+=" and adv is not None and expand(adv, defs) == Rx:
-                    out.append(ok("R-COUNT", inst + "#advance", fn.loc(nd["id"]), fn.qn,
-                                  "cursor advances by the returned count", "%s += %s" % (lt[2], fmt_term(adv))))
-                else:
-                    out.append(bad("R-COUNT", inst + "#advance", fn.loc(nd["id"]), fn.qn,
-                                   "cursor advances by the returned count",
-                                   "`%s`, returned count is %s" % (fmt_term(fn.term(nd["id"])), fmt_term(R))))
+    for b, sub, at in bodies:
+        for nd in b.nodes:
+            if is_store(nd):
+                ks = b.kids(nd["id"])
+                lt = b.term(ks[0])
+                if lt[0] == "mem" and lt[1] == ("this",) and b.n(ks[0]).get("iw"):
+                    op = nd.get("op")
+                    adv = inframe(b, sub, b.term(ks[1])) if len(ks) > 1 else None
+                    where = fn.loc((at or nd)["id"])
+                    if op == "+=" and adv is not None and expand(adv, defs) == Rx:
+                        out.append(ok("R-COUNT", inst + "#advance", where, fn.qn,
+                                      "cursor advances by the returned count", "%s += %s" % (lt[2], fmt_term(adv))))
+                    else:
+                        out.append(bad("R-COUNT", inst + "#advance", where, fn.qn,
+                                       "cursor advances by the returned count",
+                                       "`%s`, returned count is %s" % (fmt_term(inframe(b, sub, b.term(nd["id"]))), fmt_term(R))))
     return out
 
 
